@@ -481,3 +481,14 @@ OBLIGATIONS.append(Ob("newton_acceptance_contract", ob_newton, tier="quick", fam
                       max_paths=400))
 OBLIGATIONS.append(Ob("refinePoint_dispatch", ob_dispatch, tier="quick", family="refinement", encodes=["hypnotoad.core.equilibrium:PsiContour.refinePoint"],
                       desc="methods tried in order, fall through only on SolutionError, 'none' and psival=None return the point", bounds="3 methods, all 8 fail/succeed combinations"))
+
+
+def _parallel_results_used(env):
+    import harness.c13 as m   # resolved at call time
+    return m.ob_results_are_used(env)
+
+
+OBLIGATIONS.append(Ob("refined_contours_are_kept", _parallel_results_used, tier="quick", family="refinement",
+                      desc="the contours returned by the (possibly multi-process) refinement/regridding maps are the ones the region keeps: no parallel_map result is discarded "
+                           "(shared with C13)", encodes=["hypnotoad.core.mesh:MeshRegion.distributePointsNonorthogonal", "hypnotoad.core.mesh:MeshRegion.__init__"],
+                      bounds="structural (AST of the current source)"))
